@@ -192,4 +192,6 @@ def main(tier):
                     reads.append("%s(%s)" % (str(c.parts[0]).rsplit("::", 1)[-1], sa[:60]))
         run.check(not reads and len(ev.trace) > 0, rule, suffix, "%d calls, none reads the reference day" % len(ev.trace),
                   "%s passes the stored ISO reference day into %s" % (fym.name, reads[:3]), fym.loc)
+    from ..rules import extra as _x
+    _x.check_year_month_constructor_limits(run, fx)
     return run.finish(EXPLANATION)
